@@ -25,7 +25,7 @@ LEVEL_TEXT = ("The C09 scenario generator (random coastlines, jets with Courant 
               "checked by a python-side index monitor. Evidence reports the closest approach to each array edge that was actually observed.")
 LEVEL_NOTE = "numba's checker does not flag negative indices (they wrap); the shadow monitor covers those. A dying interpreter during a run counts as a violation."
 RULE = ("case = C09-style world/run with boundary-hugging releases. Non-trivial: some kernel call came within one cell of an array edge; distinct by case parameters.")
-MANDATORY = ["two_models_alive_and_stepped_in_turn", "warm_start_from_packed_positions", "second_run_on_same_files_larger_grid", "family_c09", "family_c14", "family_c10", "family_c08", "family_lonlat", "family_vinfo", "particles_exactly_on_level_depths", "trilinear_calls", "z2s_kernel_calls", "sample3D_nearest_calls", "within_one_cell_of_edge", "scheme_RK2", "scheme_RK4", "subgrid", "boundscheck_active",
+MANDATORY = ["grid_with_more_than_2049_columns_or_rows_single_precision_forcing", "two_models_alive_and_stepped_in_turn", "warm_start_from_packed_positions", "second_run_on_same_files_larger_grid", "family_c09", "family_c14", "family_c10", "family_c08", "family_lonlat", "family_vinfo", "particles_exactly_on_level_depths", "trilinear_calls", "z2s_kernel_calls", "sample3D_nearest_calls", "within_one_cell_of_edge", "scheme_RK2", "scheme_RK4", "subgrid", "boundscheck_active",
              "surface_or_bottom_particles", "diffusion_on"]
 ASSUMPTIONS = ["N >= 2 (with a single level no level pair exists)"]
 BOUNDSCHECK = True
@@ -117,6 +117,12 @@ def run_case(case: dict[str, Any], wd: Path) -> dict[str, Any]:
 
         rng = C.rng_for(case["seed"], 17, case["idx"], 7)
         imax, jmax = int(rng.integers(14, 22)), int(rng.integers(12, 18))
+        wide = bool(case["idx"] % 8 in (5, 6))
+        if wide:
+            # a grid with more than 2049 columns (or rows), single-precision forcing: positions next to the far edge are not representable in float32
+            imax, jmax = int(rng.integers(2055, 2110)), int(rng.integers(7, 10))
+            if case["idx"] % 8 == 6:
+                imax, jmax = jmax, imax
         pol = C16.polar_spec(rng, imax, jmax)
         dt = 600
         sub = [3, imax - 3, 2, jmax - 2] if case["idx"] % 2 else None
@@ -128,12 +134,13 @@ def run_case(case: dict[str, Any], wd: Path) -> dict[str, Any]:
         ang = float(rng.uniform(0, 2 * np.pi))
         sp = 0.6 * pol["dx"] / dt
         scheme = ["RK4", "RK2", "EF"][case["idx"] % 3]
-        scn = dict(world=dict(imax=imax, jmax=jmax, N=3, t0=str(tadd(C.T0, -3600)), frames=[0, 3 * 3600], files=[2], vel=dict(kind="const", u=sp * np.cos(ang), v=sp * np.sin(ang)),
-                              metric=pol, lonlat=pol),
+        # (wide grids: the run starts exactly on the first frame, so that the velocity field in force is the file's single-precision array itself)
+        scn = dict(world=dict(imax=imax, jmax=jmax, N=3, t0=str(tadd(C.T0, 0 if wide else -3600)), frames=[0, 3 * 3600], files=[2], vel=dict(kind="const", u=sp * np.cos(ang), v=sp * np.sin(ang)),
+                              metric=pol, lonlat=pol, store="f4"),
                    run=dict(start=C.T0, stop=str(tadd(C.T0, 5 * dt)), dt=dt, advection=scheme, subgrid=sub,
                             release=dict(columns=["release_time", "lon", "lat", "Z"], rows=[[C.T0, float(lon[k]), float(lat[k]), [0.0, 5.0, 60.0][k % 3]] for k in range(len(P))], header=True),
                             output=dict(period=dt)))
-        case = dict(case, scheme=scheme, diffusion=0.0, subgrid=sub, imax=imax, jmax=jmax, N=3, flow="lon/lat release, rows outside the grid")
+        case = dict(case, scheme=scheme, diffusion=0.0, subgrid=sub, imax=imax, jmax=jmax, N=3, flow="lon/lat release, rows outside the grid", wide=wide)
     else:
         from vmon.props import C08  # noqa: PLC0415
 
@@ -275,6 +282,7 @@ def run_case(case: dict[str, Any], wd: Path) -> dict[str, Any]:
     sit["boundscheck_active"] = int(os.environ.get("NUMBA_BOUNDSCHECK") == "1")
     sit[f"scheme_{case['scheme']}"] = 1
     sit["subgrid"] = int(case["subgrid"] is not None)
+    sit["grid_with_more_than_2049_columns_or_rows_single_precision_forcing"] = int(bool(case.get("wide")))
     sit["diffusion_on"] = int(case["diffusion"] > 0)
     sit["surface_or_bottom_particles"] = int(fam == "c09")
     edge = min(margin["min_i"], margin["min_j"], margin["max_i_gap"], margin["max_j_gap"])
